@@ -128,6 +128,19 @@ def gen_case(rng, index, tier):
         L.add({'p': t['rel'] + '/info/' + nm, 't': 'f',
                'c': world.trashinfo_text('whatever2', '2001-01-01T00:00:00')})
         odd.append('dots-trashinfo')
+    if rng.random() < 0.15:
+        # info names made of compatibility look-alikes of '.' and '/'
+        # (U+2025, U+FF0F, U+FE52, U+2024): one name in info/, never a path;
+        # their payload is missing, things they would "normalise" to exist
+        t = rng.choice(trashes)
+        par = os.path.dirname(t['rel'])
+        L.add({'p': (par + '/' if par else '') + 'keep', 't': 'd'})
+        L.add({'p': (par + '/' if par else '') + 'keep/precious', 't': 'f', 'c': 'keep me'})
+        for nm in rng.sample(['\u2025', '\u2025\uff0f\u2025\uff0fkeep', '\u2024\u2024',
+                              '\uff0e\uff0e', 'lnk0\uff0f', '\ufe52\ufe52\uff0fkeep'], 2):
+            L.add({'p': t['rel'] + '/info/' + nm + '.trashinfo', 't': 'f',
+                   'c': world.trashinfo_text('whatever3', '2001-01-01T00:00:00')})
+        odd.append('lookalike-names')
     if rng.random() < 0.2:
         t = rng.choice(trashes)
         L.add({'p': t['rel'] + '/files/orphan link', 't': 'l',
